@@ -332,7 +332,11 @@ class DsaComputation(VariableComputation):
             args_best, best_cost = find_optimal(
                 self.variable, assignment, self.constraints, self.mode
             )
-            current_cost = assignment_cost(self.current_cycle, self.constraints)
+            # find_optimal takes our own variable cost into account: do the same
+            # for the current cost, otherwise delta is meaningless.
+            current_cost = assignment_cost(
+                self.current_cycle, self.constraints
+            ) + self.variable.cost_for_val(self.current_value)
             delta = abs(current_cost - best_cost)
             self.logger.debug(
                 f"Current cost {current_cost}, best cost {best_cost} " f"delta {delta}"
